@@ -264,7 +264,8 @@ fn iri_stress_doc(t: &mut simcore::Tape, fl: Flavour) -> Vec<u8> {
         Flavour::Xml => {
             s.push_str("<rdf:RDF xmlns:rdf=\"http://www.w3.org/1999/02/22-rdf-syntax-ns#\">");
             for _ in 0..n {
-                let (sub, ns, obj) = (draw_iri(t), draw_iri(t), draw_iri(t));
+                // the namespace ends with '/' so that namespace + local name is a valid IRI too
+                let (sub, ns, obj) = (draw_iri(t), format!("{}/", draw_iri(t)), draw_iri(t));
                 s.push_str(&format!(
                     "<rdf:Description rdf:about=\"{}\"><n:p xmlns:n=\"{}\" rdf:resource=\"{}\"/><n:q xmlns:n=\"{}\" rdf:datatype=\"{}\">v</n:q></rdf:Description>",
                     xml_esc(&sub), xml_esc(&ns), xml_esc(&obj), xml_esc(&ns), xml_esc(&draw_iri(t))
@@ -298,7 +299,8 @@ fn iri_stress_doc(t: &mut simcore::Tape, fl: Flavour) -> Vec<u8> {
             }
         }
         _ => {
-            s.push_str(&format!("@prefix p: <{}> .\n", draw_iri(t)));
+            // the namespace ends with '/' so that p:x expands to a valid IRI too
+            s.push_str(&format!("@prefix p: <{}/> .\n", draw_iri(t)));
             for _ in 0..n {
                 s.push_str(&format!("<{}> <{}> <{}> , \"v\"^^<{}> ; p: p:x .\n", draw_iri(t), draw_iri(t), draw_iri(t), draw_iri(t)));
             }
